@@ -335,13 +335,16 @@ def programs(tier, seed):
         "join_spawn": [["joiner"], ["joiner", "lazy"]],
         "try_join_spawn": [["joiner"], ["transpose_true"]],
     }
-    shapes = [(1, 1), (2, 2), (2, 1), (1, 2, 1)] if tier == "quick" else [(1, 1), (2, 2), (2, 1), (1, 2), (1, 2, 1), (2, 2, 2), (3, 1, 2), (1, 1, 1), (2,)]
+    # ((2, 1, 2): the joined branches of step 1 are not neighbours - "exactly those branches, in branch order")
+    shapes = [(1, 1), (2, 2), (2, 1), (1, 2, 1), (2, 1, 2)] if tier == "quick" else [(1, 1), (2, 2), (2, 1), (1, 2), (1, 2, 1), (2, 1, 2), (2, 2, 2), (3, 1, 2), (1, 1, 1), (2,)]
     for macro, cfgs in sync_cfgs.items():
         for cfg in cfgs:
             for order in orders(cfg, tier):
                 for prof in shapes:
                     i += 1
                     if tier == "quick" and len(order) >= 2 and order != tuple(sorted(cfg)) and prof != (2, 2):
+                        continue
+                    if tier == "quick" and prof == (2, 1, 2) and "joiner" not in cfg:
                         continue
                     ps.append(make_sync("p%04d" % i, macro, prof, frozenset(cfg), order, i, seed))
     for macro in ("join", "try_join"):
